@@ -21,7 +21,7 @@ LEVEL_NOTE = ("Trusted: the reference (box -> native attributes) of monitors/geo
 BUDGET_S = {"quick": 120, "thorough": 1200}
 FLOOR = {"quick": 200, "thorough": 5000}
 RULE = ("structural cases = shape x x-pair x y-pair x spelling, enumerated completely (exhaustive over structure); each is "
-        "instantiated on k sampled boxes (k=40 quick / 800 thorough); every case is non-trivial; distinct by hash(document)")
+        "instantiated on k sampled boxes (k=200 quick / 3000 thorough); every case is non-trivial; distinct by hash(document)")
 ASSUMPTIONS = ["coordinates are multiples of 1/4 in [-40, 80]; sizes >= 0"]
 
 PAIRS = [("s", "e"), ("s", "c"), ("s", "l"), ("e", "c"), ("e", "l"), ("c", "l")]
@@ -186,7 +186,7 @@ def check_case(ctx, case):
 def run_shard(ctx):
     acc = ctx.acc
     rng = ctx.rng("boxes")
-    k = 40 if ctx.quick() else 800
+    k = 200 if ctx.quick() else 3000
     n = 0
     structural = 0
     for shape in SHAPES:
